@@ -58,7 +58,7 @@ finally:
     sh("git apply out/patch.diff")
 caught = {}
 for p in props:
-    rc, out = sh("./check %s --tier quick 2>&1 | tail -12" % p, cwd="/verif", extra={"VERIF_REPO": wt}, timeout=3600)
+    rc, out = sh("./check %s --tier quick 2>&1 | tail -12" % p, cwd=os.environ.get("VERIF_EVAL_DIR", "/verif"), extra={"VERIF_REPO": wt}, timeout=3600)
     viol = [l for l in out.split("\n") if l.startswith("VIOLATION")]
     caught[p] = dict(caught=bool(viol), first=(viol[0][:200] if viol else ""), detail=[l[:300] for l in out.split("\n") if l.startswith("  ")][:2])
 res["checks"] = caught
